@@ -294,7 +294,8 @@ func unmarshalGeoJSONAsType(p []byte, dst interface{}) error {
 func (g Geometry) AppendWKT(dst []byte) []byte {
 	switch g.gtype {
 	case TypeGeometryCollection:
-		return (*GeometryCollection)(g.ptr).AppendWKT(dst)
+		// The zero Geometry has a nil ptr, so go via MustAsGeometryCollection.
+		return g.MustAsGeometryCollection().AppendWKT(dst)
 	case TypePoint:
 		return (*Point)(g.ptr).AppendWKT(dst)
 	case TypeLineString:
